@@ -1479,6 +1479,137 @@ static int run_session(struct vf_rng *r, int shape, long idx)
 	return 1;
 }
 
+/* ------------------------------------------------------------------ */
+/* termination sessions: expressions that can match the empty string   */
+
+/* "For any ... regular-expression pattern ... each once per pass ... then reports not-found. The call always
+ * terminates": expressions with anchors and nullable pieces (^ $ ^$ x* (ab)? .* and alternations of them) are
+ * legal ure syntax, but what they match differs between regex dialects, so no reference matcher judges them.
+ * Decided here without one: every call returns (CPU watchdog), the walk inside one call ends (progress
+ * callback count), a pass ends with not-found within the number of calls a page can account for (one match per
+ * haystack position), every returned page is a cached displayable page, and the collapsed sequence of returned
+ * pages visits pages in the pass order from the start page without returning to a page it has left. */
+static void gen_term_pattern(struct vf_rng *r, struct pattern *p)
+{
+	uint16_t alpha[64];
+	int n_alpha, i, n;
+	unsigned a, b;
+	static const char *forms[] = {
+		"^", "$", "^$", "A*", "(AB)?", ".*", " *", "^ *", " *$", "(^|A)", "($|A)", "^$|AB", "A*B*", "A?",
+		"^A*", "A*$", "^.*$", "(A|)", "A|^", "$|B", "^(A|B)*", ".*A", "A.*", "^A", "A$", "(^A|B$)", "^|$",
+	};
+	const char *f = forms[vf_below(r, (unsigned)(sizeof forms / sizeof forms[0]))];
+	alphabet_unicode(alpha, &n_alpha);
+	a = alpha[vf_below(r, (unsigned)n_alpha)];
+	b = alpha[vf_below(r, (unsigned)n_alpha)];
+	memset(p, 0, sizeof *p);
+	p->regexp = 1;
+	p->casefold = vf_chance(r, 1, 3);
+	n = 0;
+	for (i = 0; f[i]; i++) {
+		unsigned c = (unsigned char)f[i];
+		if (c == 'A' || c == 'B') {
+			c = (c == 'A') ? a : b;
+			if (is_ere_special(c) || c == ':' || c == '-' || c == ']') p->ure[n++] = '\\';
+		}
+		p->ure[n++] = (uint16_t)c;
+	}
+	p->ure[n] = 0;
+	p->n_ure = n;
+	pat_printable(p);
+}
+
+static int run_term_session(struct vf_rng *r, int shape)
+{
+	struct pattern pat;
+	vbi_search *s;
+	int order[MAXDB], pos_of[MAXDB], n_order, i, dir, pgno, subno, use_progress, passes, pass;
+	unsigned key;
+	long cap;
+
+	gen_term_pattern(r, &pat);
+	pgno = pick_start_pgno(r);
+	subno = pick_start_subno(r, pgno);
+	dir = vf_chance(r, 1, 2) ? +1 : -1;
+	use_progress = vf_chance(r, 1, 2);
+	vf_sample("termination session: shape=%s displayable=%d [%s] pattern=\"%s\" casefold=%d start=%x.%x dir=%+d progress=%d",
+		  shape_name[shape], n_db, db_str(), pat.text, pat.casefold, pgno, subno, dir, use_progress);
+	progress_limit = 3L * (n_tx + 2) + 10;
+	runaway = 0; cancel_at = 0;
+	vf_phase("vbi_search_new");
+	s = vbi_search_new(vbi, pgno, subno, pat.ure, pat.casefold, 1, use_progress ? progress_cb : NULL);
+	vf_phase("case");
+	if (!s) { vf_count("term_patterns_rejected", 1); return 0; }
+	vf_count("term_sessions", 1);
+	/* one match per haystack position (23 rows of 40 characters and a separator) and the final not-found */
+	cap = (long)n_db * (23 * 41 + 2) + 16;
+	passes = vf_chance(r, 1, 3) ? 2 : 1;
+	for (pass = 0; pass < passes && !vf_failed(); pass++) {
+		long calls = 0;
+		int last = -1, last_pos = -1, ended = 0, returned = 0;
+		if (pass == 1 && vf_chance(r, 1, 2)) dir = -dir;
+		key = start_key(pgno, subno, dir);
+		for (i = 0; i < n_db; i++) db[i].match[0] = 1;
+		n_order = expected_order(0, key, dir, -1, order);
+		for (i = 0; i < n_order; i++) pos_of[order[i]] = i;
+		while (!ended) {
+			vbi_page *pg = NULL;
+			int st, idx;
+			if (++calls > cap) {
+				vf_fail("model:C17:pass-does-not-end", "pattern \"%s\" (can match the empty string) from %x.%x dir %+d: %ld calls without not-found, the last %s page %x.%x (cache has %d displayable pages [%s])",
+					pat.text, pgno, subno, dir, calls - 1, returned ? "returned" : "-", last >= 0 ? db[last].pgno : 0, last >= 0 ? db[last].subno : 0, n_db, db_str());
+				break;
+			}
+			st = next_call(s, &pg, dir, use_progress);
+			vf_count("term_next_calls", 1);
+			if (runaway) {
+				vf_fail("model:C17:walk-does-not-end", "pattern \"%s\" regexp=1 from %x.%x dir %+d, call %ld: progress callback invoked %ld times in one vbi_search_next() with %d pages transmitted (%d displayable); cancelled by the monitor; cache [%s]",
+					pat.text, pgno, subno, dir, calls, progress_calls, n_tx, n_db, db_str());
+				break;
+			}
+			switch (st) {
+			case VBI_SEARCH_SUCCESS:
+				returned = 1;
+				if (!pg) { vf_fail("model:C17:success-without-page", "VBI_SEARCH_SUCCESS with *pg == NULL"); ended = 1; break; }
+				idx = db_find(pg->pgno, pg->subno);
+				if (idx < 0) {
+					vf_fail("model:C17:unknown-page-returned", "pattern \"%s\": returned page %x.%x is not a cached displayable page; cache [%s]", pat.text, pg->pgno, pg->subno, db_str());
+					ended = 1; break;
+				}
+				if (idx != last) {
+					if (pos_of[idx] <= last_pos) {
+						vf_fail(pos_of[idx] == last_pos ? "model:C17:page-returned-twice" : "model:C17:wrong-order",
+							"pattern \"%s\" from %x.%x dir %+d: page %x.%x returned after page %x.%x, which comes later in the pass; cache [%s]",
+							pat.text, pgno, subno, dir, db[idx].pgno, db[idx].subno, last >= 0 ? db[last].pgno : 0, last >= 0 ? db[last].subno : 0, db_str());
+						ended = 1; break;
+					}
+					last = idx; last_pos = pos_of[idx];
+					vf_count("term_pages_returned", 1);
+				}
+				break;
+			case VBI_SEARCH_NOT_FOUND:
+				vf_count("term_passes_ended", 1);
+				ended = 1;
+				break;
+			case VBI_SEARCH_CACHE_EMPTY:
+				if (n_db > 0) vf_fail("model:C17:cache-empty-but-pages", "VBI_SEARCH_CACHE_EMPTY although %d displayable pages are cached", n_db);
+				ended = 1;
+				break;
+			default:
+				vf_fail("model:C17:unexpected-status", "vbi_search_next returned %d (pattern \"%s\" from %x.%x dir %+d)", st, pat.text, pgno, subno, dir);
+				ended = 1;
+				break;
+			}
+		}
+		if (calls > 100) vf_count("term_passes_over_100_calls", 1);
+	}
+	vf_phase("vbi_search_delete");
+	vbi_search_delete(s);
+	vf_phase("case");
+	vf_sig("term shape=%s dir=%c pages=%s", shape_name[shape], dir > 0 ? 'f' : 'r', n_db == 0 ? "0" : n_db == 1 ? "1" : n_db <= 3 ? "2-3" : "4+");
+	return 1;
+}
+
 static int run_case(struct vf_rng *r, long idx)
 {
 	int shape, rich, sessions, i, nontrivial = 0;
@@ -1519,6 +1650,10 @@ static int run_case(struct vf_rng *r, long idx)
 	sessions = vf_range(r, 1, 3);
 	for (i = 0; i < sessions && !vf_failed(); i++)
 		nontrivial |= run_session(r, shape, idx);
+	/* expressions that can match the empty string: termination only, on small caches (a pass may need a
+	 * call per character position) */
+	if (!vf_failed() && n_db <= 4 && vf_chance(r, 1, 2))
+		nontrivial |= run_term_session(r, shape);
 
 	vf_phase("vbi_decoder_delete");
 	vbi_decoder_delete(vbi);
